@@ -17,7 +17,6 @@
 #include <string.h>
 #include <limits.h>
 #include "vf.h"
-#include "misc.h"
 #include "dvb_mux.h"
 #include "dvb_demux.h"
 #include "c06_dvb_parser.h"
@@ -44,6 +43,7 @@ struct dg_opts {
 	unsigned first_line_max;        /* 0 = free; else the first line of the frame is Teletext on a line <= this */
 	int line0;                      /* Teletext lines with line number 0 (C07 robustness only) */
 	int no_mask;                    /* always service_mask = all */
+	int no_retarget;                /* do not aim at packets that end one byte short of a legal size */
 };
 
 struct dg_frame {
@@ -209,6 +209,30 @@ static void dg_set_expect_by_size(struct dg_frame *f, const struct dg_cfg *c)
 	}
 }
 
+/* Variable length units: choose the raw line length so that exactly `spare`
+ * bytes remain up to the next legal packet size (1 = too small for a stuffing
+ * unit, the multiplexer has to extend the last data unit). */
+static void dg_retarget_raw(struct vf_rng *r, struct dg_frame *f, const struct dg_cfg *c, unsigned spare)
+{
+	unsigned cur = (unsigned)f->sp.bytes_per_line, per = cur + 6 * ((cur + 250) / 251);
+	unsigned base = f->need - (unsigned)f->n_exp_raw * per;
+	unsigned maxbpl = 852 - (unsigned)f->sp.offset, start = vf_below(r, maxbpl), k;
+	for (k = 0; k < maxbpl; k++) {
+		unsigned b = 1 + (start + k) % maxbpl;
+		unsigned need = base + (unsigned)f->n_exp_raw * (b + 6 * ((b + 250) / 251));
+		if (need > c->max_sz) continue;
+		if ((need < c->min_sz) ? (need + spare == c->min_sz) : ((need + spare) % 184 == 0)) {
+			f->sp.bytes_per_line = (int)b;
+			free(f->raw);
+			f->raw_size = (size_t)(f->sp.count[0] + f->sp.count[1]) * b;
+			f->raw = malloc(f->raw_size);
+			vf_bytes(r, f->raw, f->raw_size);
+			f->raw_arg = f->raw;
+			return;
+		}
+	}
+}
+
 /* ---------------- acceptable frames ---------------- */
 
 static const vbi_service_set dg_junk_ids[] = { VBI_SLICED_CAPTION_525, VBI_SLICED_CAPTION_525_F1, VBI_SLICED_TELETEXT_A,
@@ -319,6 +343,10 @@ static void dg_gen_accept(struct vf_rng *r, const struct dg_cfg *c, const struct
 		f->n--;
 		dg_build_expect(f, c->di);
 	}
+	if (!o->no_retarget && !dg_fixed(c->di) && f->n_exp_raw > 0 && f->raw && f->need <= c->max_sz && vf_chance(r, 1, 3)) {
+		dg_retarget_raw(r, f, c, vf_chance(r, 2, 3) ? 1 : (unsigned)vf_range(r, 0, 3));
+		dg_build_expect(f, c->di);
+	}
 	dg_set_expect_by_size(f, c);
 	if (f->expect == DG_EITHER && vf_chance(r, 1, 2) && f->n > 0) {
 		/* mostly keep clear of the undocumented corner */
@@ -379,21 +407,32 @@ static int dg_gen_reject(struct vf_rng *r, const struct dg_cfg *c, struct dg_fra
 		break; }
 	case RJ_ORDER: {
 		int a;
+		o.allow_raw = 2;
 		dg_gen_accept(r, c, &o, f, pts);
 		if (f->n < 2) return 0;
 		a = (int)vf_below(r, (unsigned)f->n - 1);
 		s = f->sl[a]; f->sl[a] = f->sl[a + 1]; f->sl[a + 1] = s;
 		if (!f->sl[a].line || !f->sl[a + 1].line) return 0;
+		if (!dg_kind_of(f->sl[a].id) || !dg_kind_of(f->sl[a + 1].id)) return 0;
 		f->reject_note = "descending line numbers";
 		break; }
 	case RJ_DUPLICATE: {
 		int a, j;
+		unsigned fl;
+		o.allow_raw = 2;
 		dg_gen_accept(r, c, &o, f, pts);
 		a = dg_included_index(r, f, 1);
 		if (a < 0 || f->n >= DG_MAXSL) return 0;
 		for (j = f->n; j > a; j--) f->sl[j] = f->sl[j - 1];
 		f->n++;
 		if (vf_chance(r, 1, 2)) vf_bytes(r, f->sl[a + 1].data, sizeof f->sl[a + 1].data);
+		/* the second copy may be another service: sliced after raw, raw after sliced */
+		fl = f->sl[a].line >= 313 ? f->sl[a].line - 313 : f->sl[a].line;
+		if (vf_chance(r, 1, 2)) {
+			j = a + (int)vf_below(r, 2);
+			if (f->sl[j].id == VBI_SLICED_VBI_625 && fl >= 7 && fl <= 22) f->sl[j].id = VBI_SLICED_TELETEXT_B_625;
+			else if (f->sl[j].id != VBI_SLICED_VBI_625 && f->raw && dg_line_in_sp(&f->sp, f->sl[j].line)) f->sl[j].id = VBI_SLICED_VBI_625;
+		}
 		f->reject_note = "line coded twice";
 		break; }
 	case RJ_SERVICE: {
@@ -478,7 +517,6 @@ static int dg_gen_reject(struct vf_rng *r, const struct dg_cfg *c, struct dg_fra
 		break; }
 	case RJ_RAW_RANGE: {
 		static const unsigned out[] = { 7, 23, 320, 336 };
-		memset(f, 0, offsetof(struct dg_frame, exp));
 		dg_gen_accept(r, c, &o, f, pts);
 		dg_frame_free(f);
 		dg_gen_sp(r, f, 1);
